@@ -6,10 +6,11 @@ import re
 
 HERE = os.path.dirname(os.path.dirname(os.path.abspath(__file__)))
 rows = json.load(open(os.path.join(HERE, "seeded", "SUMMARY.json")))
-if os.path.exists(os.path.join(HERE, "seeded", "SUMMARY-r2.json")):
-    rows += json.load(open(os.path.join(HERE, "seeded", "SUMMARY-r2.json")))
+for extra in ("SUMMARY-r2.json", "SUMMARY-r3.json"):
+    if os.path.exists(os.path.join(HERE, "seeded", extra)):
+        rows += json.load(open(os.path.join(HERE, "seeded", extra)))
 first = {}
-for nm in ("ROUND1.json", "ROUND1-r2.json"):
+for nm in ("ROUND1.json", "ROUND1-r2.json", "ROUND1-r3.json"):
     path1 = os.path.join(HERE, "seeded", nm)
     if os.path.exists(path1):
         first.update({r["id"]: r for r in json.load(open(path1))})
@@ -28,7 +29,7 @@ for r in rows:
             break
     lines.append("| %s | %s | %s | see `seeded/%s/notes.md` | %s | %s | %s |" % (
         r["id"], r["property"], one.replace("|", "/"), r["id"], f1,
-        ", ".join(r["detected_by"]) if r["confirmed"] else ("not confirmed: " + ("patch does not apply" if not r["applies"] else "demo does not fail with the change on the repaired tree")),
+        ", ".join(r["detected_by"] + ["(%s)" % x for x in r.get("also_detected_by_in_cross_run", [])]) if r["confirmed"] else ("not confirmed: " + ("patch does not apply" if not r["applies"] else "demo does not fail with the change on the repaired tree")),
         clause))
 table = "\n".join(lines)
 p = os.path.join(HERE, "DESIGN.md")
